@@ -182,7 +182,7 @@ theorem outbound_exact_else (c : Config) (p : Packet) (d : Nat) (h : famOn c p.f
     passthrough source - an application TCP packet is redirected iff its destination is included, not
     excluded, not loopback, and neither its port nor its interface is excluded. -/
 theorem outbound_exact_plain (c : Config) (p : Packet) (d : Nat) (h : famOn c p.fam = true)
-    (happ : proxyOwned c p = false) (hdns : c.dns = false) (htcp : p.proto = .tcp) (hlo : p.outIf ≠ "lo")
+    (happ : proxyOwned c p = false) (hdns : dnsActive c = false) (htcp : p.proto = .tcp) (hlo : p.outIf ≠ "lo")
     (hog : c.ownerGroupsAll = true ∧ c.ownerGroupsExclude = []) (hpi : c.outPortsInclude = []) :
     evalTable (d + 2) (rulesOf c p.fam) .nat .output p = .redirect c.proxyPort ↔
       (dstIncluded c p = true ∧ dstExcluded c p = false ∧ loopbackDst c p = false ∧
@@ -203,7 +203,7 @@ theorem outbound_exact_plain (c : Config) (p : Packet) (d : Nat) (h : famOn c p.
     resolver on localhost). -/
 theorem loopback_alone (c : Config) (p : Packet) (d : Nat) (h : famOn c p.fam = true)
     (happ : proxyOwned c p = false) (hlo : p.outIf = "lo") (hid : hasProxyIdentity c = true)
-    (hincl : c.noLoopbackIncluded = true) (hdns : c.dns = false ∨ p.dport ≠ 53) :
+    (hincl : loopbackIncluded c = false) (hdns : dnsActive c = false ∨ p.dport ≠ 53) :
     evalTable (d + 2) (rulesOf c p.fam) .nat .output p = .accept p := by
   rw [outbound_app c p d h happ]
   by_cases ht : isTcp p = true
@@ -740,7 +740,7 @@ theorem lo_journey_proxy_deliveries_not_recaptured (c : Config) (p : Packet) (d 
 /-! ## DNS: the agent's own TCP DNS -/
 
 theorem identityWalk_uid53 (c : Config) (p : Packet) (uids : List String) (rest : List OwnerId)
-    (hd : c.dns = true) (hu : uids.contains p.uid = true) (h53 : p.dport = 53) :
+    (hd : dnsActive c = true) (hu : uids.contains p.uid = true) (h53 : p.dport = 53) :
     identityWalk c p (uids.map .uid ++ rest) = some false := by
   induction uids with
   | nil => simp at hu
@@ -757,7 +757,7 @@ theorem identityWalk_uid53 (c : Config) (p : Packet) (uids : List String) (rest 
 /-- With DNS capture, TCP port 53 sent by a proxy UID (the agent's upstream queries) is never
     redirected - not to the DNS agent, not to the outbound port, and not even to the inbound listener. -/
 theorem dns_proxy_uid_port53 (c : Config) (p : Packet) (d : Nat) (h : famOn c p.fam = true)
-    (hd : c.dns = true) (hu : c.proxyUIDs.contains p.uid = true) (h53 : p.dport = 53) :
+    (hd : dnsActive c = true) (hu : c.proxyUIDs.contains p.uid = true) (h53 : p.dport = 53) :
     evalTable (d + 2) (rulesOf c p.fam) .nat .output p = .accept p := by
   rw [nat_output_correct c p d h]
   unfold natOutputSpec
